@@ -10,8 +10,8 @@ import (
 
 func init() {
 	register(&PropMeta{
-		ID:    "C15",
-		Level: "other",
+		ID:          "C15",
+		Level:       "other",
 		Explanation: "Decides the closed set and value shape of deadline writers: the deadline field is stored only as Unix(Now + ActionTime seconds) (turn), 0 (round-close hook and between hands) or Unix(Unix(old) + duration seconds) (extension, which returns exactly the stored value); the address never escapes. Wiring: the clearing hook is registered with the hand before it is started, the hand stores and invokes it in its round-closed handler before asking for the next step, and the between-hands reset stores 0 on every path. NOT decided: the predicate that decides when a turn publishes a deadline.",
 		Rules: map[string]string{
 			"R1": "closed writer set and value shapes of TableState.CurrentActionEndAt; extension returns the stored value; no address escape",
@@ -248,7 +248,9 @@ func gameEventConst(p *Prog, name string) int64 {
 	for _, pk := range p.AllPkgs {
 		if pk.PkgPath == "github.com/weedbox/pokerface" && pk.Types != nil {
 			if o := pk.Types.Scope().Lookup(name); o != nil {
-				if cst, ok := o.(interface{ Val() interface{ String() string } }); ok {
+				if cst, ok := o.(interface {
+					Val() interface{ String() string }
+				}); ok {
 					_ = cst
 				}
 				if cc, ok := o.(*typesConst); ok {
